@@ -104,7 +104,7 @@ pub enum Twist {
 }
 
 const WEIRD_NAMES: &[&str] = &["[", "*", "?", "a[b", "]", "{a,b}", "ünï", "a b", "a/b", "../x", "", ".", "**", "[!", "\\", "a\nb", "\u{0}", "s.????????", "%s"];
-const WEIRD_PATHS: &[&str] = &["./x", "a/../b", "/abs", "", ".", "..", "a//b", "a/", "../../etc/passwd", "x/./y", "\u{0}", "a\\b", "ünï/中", "*", "[", "a/b/../../c"];
+const WEIRD_PATHS: &[&str] = &["./x", "a/../b", "/abs", "", ".", "..", "a//b", "a/", "../../etc/passwd", "x/./y", "\u{0}", "a\\b", "ünï/中", "*", "[", "a/b/../../c", "/", "//", "/.", "/tmp/..", "./", "a/.."];
 
 fn multibyte_id(n: u8) -> String {
     match n % 4 {
@@ -578,6 +578,11 @@ impl Property for C14 {
                 o.nontrivial(format!("{:?}", item));
                 let r = guarded(|| crate::props::c03::evaluate(item));
                 if let Err(pi) = r {
+                    if !pi.in_library() && pi.message.starts_with("vtp") {
+                        // the library's path constructor returned an error for a generated path: an error, not a panic
+                        o.class("path-constructor-refused");
+                        return o;
+                    }
                     if !pi.in_library() {
                         panic!("harness panic {}:{} {}", pi.file, pi.line, pi.message);
                     }
@@ -616,7 +621,8 @@ impl Property for C14 {
                             }
                         }
                         w.layout.steps[0].expected_products = vec![
-                            RuleSpec::Match { pattern: "*".into(), in_src: None, products: false, in_dst: None, from: sname.clone() },
+                            // (an explicit but empty source prefix for every other round through the path list)
+                            RuleSpec::Match { pattern: "*".into(), in_src: if (*n as usize / WEIRD_PATHS.len()) % 2 == 1 { Some(String::new()) } else { None }, products: false, in_dst: None, from: sname.clone() },
                             RuleSpec::Modify("*".into()),
                             RuleSpec::Match { pattern: "*".into(), in_src: Some(p.clone()), products: false, in_dst: Some(p.clone()), from: sname.clone() },
                             RuleSpec::Create(p.clone()),
